@@ -22,7 +22,8 @@ H['fixture'].required_goals = ('done',)
 
 def build_jobs(tier, seed):
     J = common.Job
-    return [J(H['normalize'], {}), J(H['compare'], {}),
+    cmp_p = {'fracs': list(range(64))} if tier == 'thorough' else {}
+    return [J(H['normalize'], {}), J(H['compare'], cmp_p),
             J(H['marshall'], {}), J(H['fixture'], {})]
 
 
@@ -35,7 +36,8 @@ def describe(tier):
         'included)',
         'seconds / window': 'every integer number of seconds in +-3.2*10^11 '
         '(the exact-equality boundary and negative values included), and '
-        'every such integer plus 1/64, 1/4, 1/2 or 63/64 s passed as a float '
+        'every such integer plus 1/64, 1/4, 1/2 or 63/64 s (thorough: every '
+        'k/64, k = 1..63) passed as a float '
         '(fractional and negative fractional counts that are a whole number '
         'of microseconds)',
         'override': 'set_time_override with a single instant, '
